@@ -4,7 +4,7 @@
 // (C13_CASE_DEADLINE_S, default 8 s for seq / 20 s for pf; 3 s once three children have hung): a hung child is diagnosed on
 // stderr (HANGDIAG lines), killed and reported as "HANG after_result=<0|1> partial=...".
 //   harness seq   : stdin lines "n1 n2 ..."                 -> "r0 r1 r2 ..." (numTaskingThreads before / after each init)
-//   harness seq   : tokens may also be u (a parallel_for) / s (a schedule()d closure): uses before / between inits
+//   harness seq   : a token f<n> is initTaskingSystem(n, /*flushDenormals*/ true); tokens may also be u (a parallel_for) / s (a schedule()d closure): uses before / between inits
 //   harness cre   : stdin lines "n m ms"  -> one thread loops parallel_for while this thread alternates init(n)/init(m)
 //   harness ot    : stdin lines "n size dur" -> the same measured loop from the initialising thread and from another thread
 //   harness pf    : stdin lines "nfirst n size dur"         -> "report=R count=C max_inside=M ids=I"
@@ -26,6 +26,9 @@
 #include <poll.h>
 #include <signal.h>
 #include <sys/wait.h>
+#if defined(__SSE__)
+#include <xmmintrin.h>
+#endif
 #include <unistd.h>
 
 #include "rkcommon/tasking/parallel_for.h"
@@ -44,7 +47,7 @@ static void spin_us(int us)
 
 // ops: integers = initTaskingSystem(n); USE_PF = a parallel_for(16) (uses the tasking system, may start it lazily);
 // USE_SCHED = a schedule()d closure, waited for.  After every op numTaskingThreads() is reported.
-static const int USE_PF = 1000001, USE_SCHED = 1000002;
+static const int USE_PF = 1000001, USE_SCHED = 1000002, FLAG_BASE = 2000000;   // FLAG_BASE + n + 100: initTaskingSystem(n, true)
 static std::string child_seq(const std::vector<int> &ns)
 {
   std::ostringstream o;
@@ -61,6 +64,11 @@ static std::string child_seq(const std::vector<int> &ns)
       parallel_for(2, [&](int) { pf++; });      // also lets a 1-thread internal system run the closure
       auto t0 = clk::now();
       while (c->load() == 0 && clk::now() - t0 < std::chrono::milliseconds(300)) std::this_thread::yield();
+    } else if (n >= FLAG_BASE) {
+      initTaskingSystem(n - FLAG_BASE - 100, true);     // flushDenormals = true: sets FTZ/DAZ in the CALLING thread's MXCSR, nothing else
+#if defined(__SSE__) && !defined(RKCOMMON_NO_SIMD)
+      if ((_mm_getcsr() & 0x8040) != 0x8040) o << " NOFLUSH";
+#endif
     } else
       initTaskingSystem(n);
     o << " " << numTaskingThreads();
@@ -226,7 +234,8 @@ int main(int argc, char **argv)
     std::vector<int> v;
     std::istringstream is(line);
     std::string tok;
-    while (is >> tok) v.push_back(tok == "u" ? USE_PF : tok == "s" ? USE_SCHED : atoi(tok.c_str()));
+    while (is >> tok)
+      v.push_back(tok == "u" ? USE_PF : tok == "s" ? USE_SCHED : tok[0] == 'f' ? FLAG_BASE + 100 + atoi(tok.c_str() + 1) : atoi(tok.c_str()));
     int fd[2];
     if (pipe(fd) != 0) return 3;
     fflush(stdout);
